@@ -204,7 +204,8 @@ class TrajMachine(LogMachine):
         kinds = sorted(set(m.symbols))
         mask = op['mask'] % (2 ** len(kinds) - 1) + 1
         chosen = [k for b, k in enumerate(kinds) if mask >> b & 1]
-        arg = chosen[0] if (len(chosen) == 1 and op.get('as_str', True)) else (chosen if op.get('coll', 'list') == 'list' else tuple(chosen))
+        coll = op.get('coll', 'list')
+        arg = chosen[0] if (len(chosen) == 1 and op.get('as_str', True)) else {'list': list, 'tuple': tuple, 'set': set, 'frozenset': frozenset, 'dict_keys': lambda c: dict.fromkeys(c).keys()}[coll](chosen)
         new = gcall(t.filter, arg)
         idx = [j for j, s in enumerate(m.symbols) if s in chosen]
         nm = Model(m.pos[:, idx], [m.symbols[j] for j in idx], m.matrix, m.dt, m.meta)
@@ -292,7 +293,7 @@ class TrajMachine(LogMachine):
     def r_read_values(self, i, what, k):
         self.step({'op': 'read', 'i': i, 'what': what, 'k': k})
 
-    @rule(i=st.integers(0, 7), mask=st.integers(0, 62), as_str=st.booleans(), coll=st.sampled_from(['list', 'tuple']))
+    @rule(i=st.integers(0, 7), mask=st.integers(0, 62), as_str=st.booleans(), coll=st.sampled_from(['list', 'tuple', 'set', 'frozenset', 'dict_keys']))
     def r_filter(self, i, mask, as_str, coll):
         self.step({'op': 'filter', 'i': i, 'mask': mask, 'as_str': as_str, 'coll': coll})
 
